@@ -2,6 +2,7 @@
 package c06
 
 import (
+	"fmt"
 	"testing"
 
 	"pgregory.net/rapid"
@@ -19,7 +20,31 @@ func check(sc imps.Scenario) error {
 	if err := o.AssertLocalDot(); err != nil {
 		return err
 	}
-	return o.AssertResolution()
+	if err := o.AssertResolution(); err != nil {
+		return err
+	}
+	// the same Code values after they were rendered in Files where their paths are local or
+	// dot-imported: in this File they must again be judged by this File's own path and hints
+	for i, p := range sc.Paths {
+		if p == "" || p == "C" || i > 2 {
+			continue
+		}
+		warm := &recipe.File{Ctor: "NewFilePathName", Args: []recipe.Text{recipe.Text(p), "w"}}
+		if i%2 == 1 {
+			warm = &recipe.File{Ctor: "NewFile", Args: []recipe.Text{"w"}, Ops: []recipe.FileOp{{Op: "ImportAlias", Args: []recipe.Text{recipe.Text(p), "."}}}}
+		}
+		ow, err := sc.RunAfterWarmupIn(warm)
+		if err != nil {
+			return err
+		}
+		if err := ow.AssertLocalDot(); err != nil {
+			return fmt.Errorf("after the same Code values had been rendered in a File where %q is local / dot-imported: %v", p, err)
+		}
+		if err := ow.AssertResolution(); err != nil {
+			return fmt.Errorf("after the same Code values had been rendered in a File where %q is local / dot-imported: %v", p, err)
+		}
+	}
+	return nil
 }
 
 func TestC06(t *testing.T) {
